@@ -271,7 +271,7 @@ Definition lex_line (ln : Z) (line : text) (atomic_only loose : bool) : (lexitem
     | "HEADER" => meta (lex_header ln line)
     | "REMARK" => meta (lex_remark ln line loose)
     | "ATOM  " => inl (lex_atom ln line false)
-    | "ANISOU" => m2 (lex_anisou ln line)
+    | "ANISOU" => inl (lex_anisou ln line)
     | "HETATM" => inl (lex_atom ln line true)
     | "CRYST1" => m2 (lex_cryst ln line)
     | "SCALE1" => m2 (let '(d, e) := lex_transformation ln line in (LScale 0 d, e))
